@@ -21,6 +21,7 @@ import Biogo.Go.Wire
 import Biogo.Go.LTS
 import Biogo.Model.Processor
 import Biogo.Model.Promise
+import Biogo.Model.PromiseCond
 
 namespace Biogo.Drive.C19
 open Biogo.Wire Biogo.LTS
@@ -418,16 +419,22 @@ def showRet : Ret → String
   | .unit => "u"
   | .res r => showResP r
 
-def promMacro (c : Cfg) : Macro St Nat where
-  sys := sys c
+open Biogo.PromiseCond in
+/-- the promise protocol with the condition variable spelled out (`Biogo.PromiseCond.fsys`, a
+    refinement of `Biogo.Promise.sys`: Properties/C19_cond.lean).  A Wait that goes to sleep on
+    the condition variable, or has been woken and is on its way back to the mailbox, is not at a
+    hook point: it stays released and shows as blocked (`B`) in the status vector. -/
+def promMacro (c : FCfg) : Macro FSt Nat where
+  sys := fsys c
   n := c.calls.length
   act := id
-  atHook := fun _ _ => true
+  atHook := fun s k => match s.pcs[k]? with | some .sleeping | some .woken => false | _ => true
   finished := fun s k => match s.pcs[k]? with | some (.done _) => true | _ => false
   parkedAt := fun s k => match s.pcs[k]? with | some (.borrowed _) => 'b' | _ => 'P'
   dead := fun _ => false
 
-def promObs (m : MSt St) : String :=
+open Biogo.PromiseCond in
+def promObs (m : MSt FSt) : String :=
   let rets := m.st.pcs.map fun p => match p with | .done r => showRet r | _ => "-"
   s!"t={"/".intercalate m.trace} ret={",".intercalate rets}"
 
@@ -546,7 +553,7 @@ def handlePP (inp : List String) (obs : String) : Verdict :=
       match parseSchedLetters calls0.length sc with
       | none => bad "pp-sched"
       | some sched =>
-        let c : Cfg := { flags := f, calls := calls, fixed := true }
+        let c : PromiseCond.FCfg := { flags := f, calls := calls, wake := .broadcast }
         let m := runMacro (promMacro c) sched (List.range calls.length)
         let mo := promObs m
         let nwait := (calls0.filter (· == .wait)).length
